@@ -390,16 +390,75 @@ def mk_add_feature_extremes(nspans):
     return check
 
 
+def mk_gff_records(nspans):
+    """GffAnnotationDb.add_records (what loading a GFF file ends in): a record merged from several rows of one ID is stored with
+    start/stop = min/max over ALL its span coordinates, whatever the order and nesting of the rows"""
+
+    def check(a0: int, b0: int, a1: int, b1: int, a2: int, b2: int) -> bool:
+        """
+        pre: a0 >= 0 and b0 >= 0 and a1 >= 0 and b1 >= 0 and a2 >= 0 and b2 >= 0
+        post: _
+        """
+        from cogent3.core import annotation_db as A
+
+        spans = [(a0, b0), (a1, b1), (a2, b2)][:nspans]
+        seen = []
+
+        class Conn:
+            def __init__(self, real):
+                self.real = real
+
+            def execute(self, *a, **kw):
+                return self.real.execute(*a, **kw)
+
+            def executemany(self, sql, rows):
+                seen.append((sql, rows))
+
+            def commit(self):
+                return self.real.commit()
+
+            def __enter__(self):
+                self.real.__enter__()
+                return self
+
+            def __exit__(self, *a):
+                return self.real.__exit__(*a)
+
+            def __getattr__(self, name):
+                return getattr(self.real, name)
+
+        class Db(A.GffAnnotationDb):
+            @property
+            def db(self):
+                return Conn(A.GffAnnotationDb.db.fget(self))
+
+        db = Db()
+        db.add_records({"x": {"seqid": "s", "biotype": "gene", "name": "x", "spans": [list(sp) for sp in spans], "strand": "+"}})
+        if not W.reach("end"):
+            return False
+        sql, rows = seen[-1]
+        cols = [c.strip() for c in sql[sql.index("(") + 1 : sql.index(")")].split(",")]
+        recd = dict(zip(cols, rows[0]))
+        flat = [x for sp in spans for x in sp]
+        mn, mx = flat[0], flat[0]
+        for x in flat:
+            mn = x if x < mn else mn
+            mx = x if x > mx else mx
+        return recd["start"] == mn and recd["stop"] == mx
+
+    return check
+
+
 ENCODED = [
     ("src/cogent3/core/annotation_db.py", ["_matching_conditions", "_select_records_sql", "_count_records_sql", "SqliteAnnotationDbMixin.get_features_matching",
                                            "SqliteAnnotationDbMixin.get_records_matching", "SqliteAnnotationDbMixin._get_records_matching",
-                                           "SqliteAnnotationDbMixin.num_matches", "SqliteAnnotationDbMixin.add_feature (start/stop/spans normalisation)",
+                                           "SqliteAnnotationDbMixin.num_matches", "SqliteAnnotationDbMixin.add_feature (start/stop/spans normalisation)", "GffAnnotationDb.add_records (start/stop of merged records)",
                                            "BasicAnnotationDb / GffAnnotationDb / GenbankAnnotationDb table routing"]),
 ]
 BOUNDS = {
     "quick": ["all 2^7 subsets of {seqid, biotype, name, strand, attributes, start, stop} x allow_partial x on_alignment, for 3 db classes and 3 query methods",
               "one symbolic record; strings unbounded (z3 sequence theory), ints unbounded; record and window non-empty (start < stop), coordinates >= 0",
-              "add_feature: 1..2 spans (thorough: 3) with arbitrary (also reversed, overlapping, unsorted) non-negative coordinates"],
+              "add_feature and GffAnnotationDb.add_records: 1..2 spans (thorough: 3) with arbitrary (also reversed, overlapping, nested, unsorted) non-negative coordinates"],
 }
 BOUNDS["thorough"] = BOUNDS["quick"]
 ASSUMPTIONS = [
@@ -449,6 +508,7 @@ def obligations(tier):
             obs.append(Ob(f"where_equiv/{cls}/{method}", __name__, "mk_query_equiv", {"cls_name": cls, "method": method}, kind="direct", timeout=600, group="sql"))
     for n in ((1, 2, 3) if tier == "thorough" else (1, 2)):
         obs.append(Ob(f"add_feature_extremes/n{n}", __name__, "mk_add_feature_extremes", {"nspans": n}, timeout=600, group="insert"))
+        obs.append(Ob(f"gff_records_extremes/n{n}", __name__, "mk_gff_records", {"nspans": n}, timeout=600, group="insert"))
     return obs
 
 
